@@ -8,7 +8,7 @@
 //!   `ORACLE-FAIL\t<what>\t<replay args>\t<input>`      implementation-level oracle failures,
 //!   `STATS\t...`.
 //!
-//! usage: c17 pixels quick|thorough | dims quick|thorough | sources <n> | round <fmt> <w> <h> <ox> <oy> <hex> | source-one <seed> <index>
+//! usage: c17 pixels quick|thorough | dims quick|thorough | sources <n> [<start>] | round <fmt> <w> <h> <ox> <oy> <hex> | source-one <seed> <index>
 use std::fmt::Write as _;
 use std::path::{Path, PathBuf};
 use truth::Game;
@@ -557,6 +557,25 @@ fn gen_scenario(rng: &mut Rng) -> Scenario {
             Src::Dir(files)
         }
     }).collect::<Vec<_>>();
+    let mut srcs = srcs;
+    let dest: Vec<(String, Spec)> = dest;
+    // most script entries should find an image somewhere (otherwise the compile is rejected early)
+    for i in 0..dest.len() {
+        let p = dest[i].0.clone();
+        let k = dest[..i].iter().filter(|(q, _)| *q == p).count();
+        let supplied = srcs.iter().any(|s| match s {
+            Src::Anm(es) => es.iter().filter(|e| e.path == p).nth(k).map(|e| e.tex.is_some()).unwrap_or(false),
+            Src::Dir(fs) => fs.iter().any(|(q, _)| *q == p) });
+        if !supplied && rng.chance(4, 5) {
+            let j = rng.below(srcs.len() as u64) as usize;
+            let fmt = *rng.pick(&[1u32, 3, 5, 7]);
+            let t = small(rng, fmt);
+            match &mut srcs[j] {
+                Src::Anm(es) => { while es.iter().filter(|e| e.path == p).count() <= k { es.push(Ent { path: p.clone(), ox: 0, oy: 0, tex: Some(t.clone()) }); } },
+                Src::Dir(fs) => { if !fs.iter().any(|(q, _)| *q == p) { let t1 = small(rng, 1); fs.push((p.clone(), t1)); } },
+            }
+        }
+    }
     let pragma_first = if rng.chance(1, 3) { 1 + rng.below(ns as u64) as usize } else { 0 };
     Scenario { dest, srcs, pragma_first }
 }
@@ -714,9 +733,10 @@ fn main() {
         "dims" => dims(&mut rng, thorough, &mut st),
         "sources" => {
             let n: u64 = args.get(2).and_then(|s| s.parse().ok()).unwrap_or(100);
-            let work = work_dir("c17").join("sources");
+            let start: u64 = args.get(3).and_then(|s| s.parse().ok()).unwrap_or(0);
+            let work = work_dir("c17").join(format!("sources{}", start));
             std::fs::create_dir_all(&work).unwrap();
-            for i in 0..n { sources_one(&work, seed, i, &mut st); }
+            for i in start..start + n { sources_one(&work, seed, i, &mut st); }
         },
         "source-one" => {
             let s: u64 = args[2].parse().unwrap(); let i: u64 = args[3].parse().unwrap();
